@@ -7,7 +7,7 @@ M3 invariant on every returned / live object (also through icontract.invariant o
 import numpy as np
 
 from .. import gen, probe, core
-from ..dense import Snap, tt_consistent, shape_sig_cores
+from ..dense import Snap, tt_consistent, shape_sig_cores, dense_size, MAX_DENSE
 from ..drive import call
 from ..shard import Workload
 from ._common import arm_tt
@@ -42,6 +42,9 @@ class Pool(object):
             ok, why = tt_consistent(obj)
             self.ctx.check('pool', 'live_object_consistent', ok, ['producer=' + name.split('#')[0]] if not ok else (), {'why': why, 'name': name}, prop=P)
             if not ok:
+                return
+            if dense_size(obj.cores) > 2 ** 20:  # products of a long history: not kept as operands (full()/matricize() of them
+                self.ctx.events['pool_object_too_large_not_kept'] += 1  # would only measure the machine's memory)
                 return
             self.items.append([obj, name, Snap(obj)])
             probe.register_live(obj, name)
@@ -271,7 +274,7 @@ def p_svd(pool, rng):
 
 
 def p_reads(pool, rng):
-    a = pool.pick(rng, std)
+    a = pool.pick(rng, lambda t: std(t) and dense_size(t.cores) <= MAX_DENSE)
     if a is None:
         return None
     call('TT.norm', a.norm, prop=P)
